@@ -16,6 +16,7 @@ From TI Require Import gen.Consts model.KittyChunks proofs.KittyChunksProofs.
 From TI Require gen.ChunksSrc proofs.ChunksSrcTie.
 From TI Require Import model.GfxPlan proofs.GfxPlanProofs.
 From TI Require Import model.GfxFrames proofs.GfxFramesProofs model.B64Blocks proofs.B64Proofs.
+From TI Require Import model.GfxConc proofs.GfxConcProofs.
 
 (** what the terminal reassembles from the chunks is the payload *)
 Theorem C03_chunks_concat :
@@ -479,3 +480,89 @@ Theorem C03_wf_of_shape :
     b64_wf is_pad (body ++ repeat p k) = ((length body + k) mod 4 =? 0) && (k <=? 2).
 Proof. exact wf_of_shape. Qed.
 Print Assumptions C03_wf_of_shape.
+
+(** ---- CONCURRENT renders of one image (round 6; model/GfxConc.v): any number of renders in
+    progress at the same time, each a sequence of small steps (per line: seek(0), save,
+    truncate, tell, getvalue on its encode buffer), EVERY schedule.  [bo] says which buffer a
+    render encodes into; [render_local bo]: no two renders share one (the code: a new BytesIO
+    per render).  [B] (bytes) and [enc] (PNG / JPEG encoding of a strip) are arbitrary. ---- *)
+(** what render [i] has emitted at ANY moment of ANY schedule is the specification's output
+    ([size=] = length of the encoded strip, payload = the encoded strip) for a prefix of ITS
+    OWN strips, and for all of them once its loop has ended — whatever the buffers held before *)
+Theorem C03_conc_lines_render_local :
+  forall (B : Type) (enc : list B -> list B) (bo : nat -> nat) (inputs : nat -> list (list B))
+         (bufs : nat -> buf B) (sched : list nat) (i : nat),
+    render_local bo ->
+    let st := crun B enc bo (cstart B inputs bufs) sched in
+    (exists done, inputs i = done ++ t_todo (c_ts st i) /\ t_out (c_ts st i) = render_spec B enc done)
+    /\ (t_todo (c_ts st i) = [] -> t_out (c_ts st i) = render_spec B enc (inputs i)).
+Proof. exact lines_render_local. Qed.
+Print Assumptions C03_conc_lines_render_local.
+
+(** a render's state is a function of ITS input, ITS buffer and the number of steps it was
+    granted: not of what the other renders render, nor of the interleaving *)
+Theorem C03_conc_noninterference :
+  forall (B : Type) (enc : list B -> list B) (bo : nat -> nat) (inputs inputs' : nat -> list (list B))
+         (bufs bufs' : nat -> buf B) (sched sched' : list nat) (i : nat),
+    render_local bo ->
+    inputs i = inputs' i -> bufs (bo i) = bufs' (bo i) -> count i sched = count i sched' ->
+    c_ts (crun B enc bo (cstart B inputs bufs) sched) i
+    = c_ts (crun B enc bo (cstart B inputs' bufs') sched') i.
+Proof. exact lines_noninterference. Qed.
+Print Assumptions C03_conc_noninterference.
+
+(** a render granted its five steps per line has ended (so the theorems above are about complete
+    outputs, not only prefixes) *)
+Theorem C03_conc_render_ends :
+  forall (B : Type) (enc : list B -> list B) (bo : nat -> nat) (inputs : nat -> list (list B))
+         (bufs : nat -> buf B) (sched : list nat) (i : nat),
+    render_local bo -> 5 * length (inputs i) <= count i sched ->
+    t_todo (c_ts (crun B enc bo (cstart B inputs bufs) sched) i) = [].
+Proof. exact lines_enough_steps. Qed.
+Print Assumptions C03_conc_render_ends.
+
+(** with the strips of the render plan and the iterm2 header: under any schedule every line of a
+    completed LINES render is the File= command of ITS strip ([size=] first, see
+    [C03_iterm2_size_key]) *)
+Theorem C03_conc_lines_emit :
+  forall (B : Type) (enc : list B -> list B) (C : Type) (b64 : list B -> list C) (bo : nat -> nat)
+         (inputs : nat -> list (list B)) (bufs : nat -> buf B) (sched : list nat) (i cols : nat)
+         (konsole : bool) (raw : list B) (bpl rh : nat),
+    render_local bo -> inputs i = strips raw bpl rh ->
+    let st := crun B enc bo (cstart B inputs bufs) sched in
+    t_todo (c_ts st i) = [] ->
+    map (fun o => (iterm2_header BLines (fst o) cols 1 konsole, b64 (snd o))) (t_out (c_ts st i))
+    = map (fun s => iterm2_emit b64 BLines cols 1 konsole (enc s)) (strips raw bpl rh).
+Proof. exact lines_emit. Qed.
+Print Assumptions C03_conc_lines_emit.
+
+Theorem C03_conc_own_buffer_is_local : render_local own_buffer.
+Proof. exact own_buffer_local. Qed.
+Print Assumptions C03_conc_own_buffer_is_local.
+
+(** EXCLUDED: one encode buffer kept on the instance.  A thread switch between one render's
+    save() and its getvalue() makes it emit the other render's strip ... *)
+Theorem C03_conc_instance_buffer_refuted :
+  let st := crun nat idenc instance_buffer (cstart nat toy_inputs toy_bufs) switch_after_save in
+  t_todo (c_ts st 0) = [] /\ t_todo (c_ts st 1) = []
+  /\ t_out (c_ts st 0) <> render_spec nat idenc (toy_inputs 0)
+  /\ nth 0 (t_out (c_ts st 0)) (0, []) = (2, [3; 3]).
+Proof. exact instance_buffer_refuted. Qed.
+Print Assumptions C03_conc_instance_buffer_refuted.
+
+(** ... and one between tell() and getvalue() a [size=] key that is not the payload's length *)
+Theorem C03_conc_instance_buffer_size_key_refuted :
+  let st := crun nat idenc instance_buffer (cstart nat toy_inputs toy_bufs) switch_after_tell in
+  t_todo (c_ts st 0) = [] /\ t_todo (c_ts st 1) = []
+  /\ exists size payload, nth 0 (t_out (c_ts st 0)) (0, []) = (size, payload) /\ size <> length payload.
+Proof. exact instance_buffer_size_key_refuted. Qed.
+Print Assumptions C03_conc_instance_buffer_size_key_refuted.
+
+(** ... while re-using one buffer SEQUENTIALLY is harmless (no single-threaded history separates
+    the two) *)
+Theorem C03_conc_instance_buffer_sequential_ok :
+  let st := crun nat idenc instance_buffer (cstart nat toy_inputs toy_bufs) (repeat 0 10 ++ repeat 1 10) in
+  t_out (c_ts st 0) = render_spec nat idenc (toy_inputs 0)
+  /\ t_out (c_ts st 1) = render_spec nat idenc (toy_inputs 1).
+Proof. exact instance_buffer_sequential_ok. Qed.
+Print Assumptions C03_conc_instance_buffer_sequential_ok.
